@@ -37,6 +37,15 @@ async fn run_case(c: &Case) -> Vec<(String, String)> {
     // a monitor is installed (and kept) so that the event paths run too
     let _monitor = sock.monitor();
     sock.subscribe_all().await;
+    if c.hist == 6 && c.ty == Ty::Sub {
+        // a subscription set far larger than any connection buffer (16 MiB): the publisher that joins below is sent all
+        // of it and, as it does not read, the write parks
+        if let AnySocket::Sub(s) = &mut sock {
+            for i in 0..4096 {
+                let _ = s.subscribe(&format!("{:0>4096}", i)).await;
+            }
+        }
+    }
     let mut accepted: Vec<RawStream> = Vec::new();
     let mut silent: Vec<RawStream> = Vec::new();
     let mut endpoint: Option<zeromq::Endpoint> = None;
@@ -141,7 +150,11 @@ async fn run_case(c: &Case) -> Vec<(String, String)> {
         }
         let one_shot = matches!(c.ty, Ty::Req | Ty::Rep);
         let big = rc::pattern(if one_shot { 32 << 20 } else { 1 << 20 }, 5, 0);
-        for _ in 0..32 {
+        if c.ty == Ty::Sub {
+            // the SUB socket's own write (the subscription set) is already parked on the silent publisher
+            tokio::time::sleep(Duration::from_millis(150)).await;
+        }
+        for _ in 0..(if c.ty == Ty::Sub { 0 } else { 32 }) {
             let m = if c.ty == Ty::Router { vec![b"P0".to_vec(), big.clone()] } else { vec![big.clone()] };
             match tokio::time::timeout(Duration::from_millis(150), sock.send(crate::e1::msg(&m))).await {
                 Err(_) => break,
@@ -197,6 +210,14 @@ async fn run_case(c: &Case) -> Vec<(String, String)> {
                 }
                 Err(e) => viol.push(("endpoint-not-free".into(), format!("{}: binding {} again failed: {}", what, ep, e))),
             }
+        }
+    }
+    if c.hist == 6 && c.ty == Ty::Sub {
+        // BEFORE the silent publisher reads another byte: nothing of the socket is left running (a peer that drains
+        // would let a surviving writer finish and hide it)
+        let (ok, _) = e4::await_cond(e4::HORIZON, || handle.metrics().num_alive_tasks() <= baseline_tasks).await;
+        if !ok {
+            viol.push(("background-tasks-survive/with-a-parked-write".into(), format!("{}: {} task(s) of the socket are still alive although the peer has not read anything since (baseline {})", what, handle.metrics().num_alive_tasks() - baseline_tasks, baseline_tasks)));
         }
     }
     for (i, p) in accepted.iter_mut().enumerate() {
@@ -591,7 +612,8 @@ pub fn run(tier: Tier, replay: Option<String>) -> i32 {
     for ty in ALL_TYPES {
         for tr in [Tr::Tcp4, Tr::Tcp6, Tr::Ipc] {
             for hist in 0..HISTS.len() {
-                if hist == 6 && !ty.can_send() {
+                // (a SUB socket sends too: its subscription set, to every publisher that joins)
+                if hist == 6 && !ty.can_send() && ty != Ty::Sub {
                     continue;
                 }
                 for close in [true, false] {
